@@ -11,6 +11,7 @@ import (
 	"strconv"
 	"strings"
 	"time"
+	"unicode"
 
 	"pgregory.net/rapid"
 )
@@ -415,4 +416,35 @@ func refPrune(vs rapid.VerifStream) []uint64 {
 		}
 	}
 	return out
+}
+
+// sanitize is the harness's own statement of the documented file-name rule:
+// letters, digits, '-' and '_' are kept, everything else becomes '_'; a result
+// equal (case-insensitively) to a Windows reserved device name gets a '_' suffix.
+func sanitize(name string) string {
+	var b strings.Builder
+	for _, r := range name {
+		if unicode.IsLetter(r) || unicode.IsDigit(r) || r == '-' || r == '_' {
+			b.WriteRune(r)
+		} else {
+			b.WriteRune('_')
+		}
+	}
+	s := b.String()
+	up := strings.ToUpper(s)
+	for _, res := range []string{"CON", "PRN", "AUX", "NUL"} {
+		if up == res {
+			return s + "_"
+		}
+	}
+	for _, p := range []string{"COM", "LPT"} {
+		if strings.HasPrefix(up, p) {
+			rest := up[len(p):]
+			switch rest {
+			case "0", "1", "2", "3", "4", "5", "6", "7", "8", "9", "¹", "²", "³":
+				return s + "_"
+			}
+		}
+	}
+	return s
 }
